@@ -4,10 +4,10 @@
 # independent sub-agents from the property text only) in a scratch worktree of /repo HEAD and runs
 # all 20 static checks on it. Expected: silence. Prints one line per refactoring; exit 1 on an alarm.
 set -u
-IDS="${*:-$(ls /verif/refactors | sort)}"
+IDS="${*:-$(ls ${VERIF_HOME:-/verif}/refactors | sort)}"
 bad=0
 for id in $IDS; do
-  out=$(/verif/tools/refac_eval.sh /verif/refactors/$id/patch.diff 2>&1)
+  out=$(${VERIF_HOME:-/verif}/tools/refac_eval.sh ${VERIF_HOME:-/verif}/refactors/$id/patch.diff 2>&1)
   if echo "$out" | grep -q "^silent on all"; then echo "$id silent"; else bad=1; echo "$id ALARM"; echo "$out" | grep -E "^ALARM|^\s+\S+:[0-9]+ R-|PATCH|BUILD" | head -6; fi
 done
 exit $bad
